@@ -21,7 +21,7 @@ type PostCase struct {
 	N       int    `json:"n"`
 	P       int    `json:"p"`       // bit mask of documents containing term x
 	Chunk   uint32 `json:"chunk"`   // chunk mode (= chunk size for <=1024)
-	Pattern string `json:"pattern"` // "mixed" (freq 1..3, locations on even docs) | "plain" (freq 1, no locations: single-hit eligible)
+	Pattern string `json:"pattern"` // "mixed" (freq 1..3, locations on even docs) | "plain" (freq 1, no locations: single-hit eligible) | "zero" (freq 0 with locations on odd docs)
 	Seg     string `json:"seg"`     // mem | mmap | merged
 	Card    int    `json:"card,omitempty"`
 }
@@ -36,6 +36,14 @@ func postBatch(c PostCase) spec.Batch {
 		}
 		if in {
 			t := spec.Tok{Term: "x", Freq: 1}
+			if c.Pattern == "zero" {
+				// frequency 0 WITH locations on odd documents (freq/norm skipped, term vectors
+				// kept), frequency 2 with locations on even ones
+				t.Freq = 2 * ((d + 1) % 2)
+				for i := 0; i < 1+d%2; i++ {
+					t.Locs = append(t.Locs, spec.Loc{Pos: i + 1 + d, Start: i, End: i + d + 1, AP: []uint64{uint64(d), uint64(i)}})
+				}
+			}
 			if c.Pattern == "mixed" {
 				t.Freq = 1 + d%3
 				if d%2 == 0 {
@@ -481,9 +489,15 @@ func genC07(tier string, emit func(interface{})) {
 			if int(chunk) > n {
 				continue
 			}
-			for _, pattern := range []string{"mixed", "plain"} {
+			for _, pattern := range []string{"mixed", "plain", "zero"} {
 				for _, sk := range []string{"mem", "mmap", "merged"} {
 					if n == 7 && sk == "mmap" && pattern == "plain" {
+						continue
+					}
+					if pattern == "zero" && (n > 4 || sk == "mmap") && tier == "quick" {
+						continue // the frequency-0 pattern: N <= 4, in memory and merged, in quick
+					}
+					if pattern == "zero" && n > 5 {
 						continue
 					}
 					for p := 1; p < 1<<uint(n); p++ {
@@ -516,7 +530,7 @@ func init() {
 	run.Register(&run.Def{
 		ID:          "C07",
 		Level:       "exploration",
-		Rule:        "bounded-exhaustive: every non-empty postings set P and EVERY exclusion set E over N documents (N<=5 quick, N<=7 thorough) x chunk sizes {1,2,3,N} x detail pattern {mixed: freq 1..3 with locations on even docs; plain: freq 1 without locations (single-hit encoding after a merge when |P|=1)} x segment {in-memory, mmap, merged} x all 8 detail-flag combinations x EVERY maximal call sequence of Next / Advance(t) for all t in (last returned, N] and for t = 2^32 + last + 1 (a target beyond 32 bits) (explored as a tree; a successor is the replayed prefix + one call; after nil one more call of each kind must return nil); Count, ActualBitmap and DocNum1Hit right after creation; ReplaceActual(S) for every S subset of P\\E followed by every call sequence (N<=4 quick, N<=5 thorough); preallocation reuse: every ordered pair and triple over a family of 20 lists (2 segments x 5 (field,term) incl. single-hit, absent term, absent field x 2 exclusions) passing the previous PostingsList and PostingsIterator objects back in after 0/1/all calls, followed by every call sequence on the last one; iterator-only hand-over: for every ordered pair of the family the ITERATOR of list A (after 0/1/all calls, optionally after ReplaceActual) is passed as preallocation to a fresh list B while A stays in use - B iterates correctly, A still reports its own Count and hits, the bitmap given to ReplaceActual is not written to; plus deterministic large instances N in {1025,2049} x cardinality {1,1024,1025,N} x chunk modes {1024,1025,1026} iterated fully and with Advance around every chunk boundary. Only requested details are compared. Non-trivial = >= 2 non-excluded hits, or an exclusion on a list with >= 2 hits.",
+		Rule:        "bounded-exhaustive: every non-empty postings set P and EVERY exclusion set E over N documents (N<=5 quick, N<=7 thorough) x chunk sizes {1,2,3,N} x detail pattern {mixed: freq 1..3 with locations on even docs; plain: freq 1 without locations (single-hit encoding after a merge when |P|=1); zero: frequency 0 WITH one or two locations on odd documents and frequency 2 with locations on even ones (N<=4 quick / 5 thorough)} x segment {in-memory, mmap, merged} x all 8 detail-flag combinations x EVERY maximal call sequence of Next / Advance(t) for all t in (last returned, N] and for t = 2^32 + last + 1 (a target beyond 32 bits) (explored as a tree; a successor is the replayed prefix + one call; after nil one more call of each kind must return nil); Count, ActualBitmap and DocNum1Hit right after creation; ReplaceActual(S) for every S subset of P\\E followed by every call sequence (N<=4 quick, N<=5 thorough); preallocation reuse: every ordered pair and triple over a family of 20 lists (2 segments x 5 (field,term) incl. single-hit, absent term, absent field x 2 exclusions) passing the previous PostingsList and PostingsIterator objects back in after 0/1/all calls, followed by every call sequence on the last one; iterator-only hand-over: for every ordered pair of the family the ITERATOR of list A (after 0/1/all calls, optionally after ReplaceActual) is passed as preallocation to a fresh list B while A stays in use - B iterates correctly, A still reports its own Count and hits, the bitmap given to ReplaceActual is not written to; plus deterministic large instances N in {1025,2049} x cardinality {1,1024,1025,N} x chunk modes {1024,1025,1026} iterated fully and with Advance around every chunk boundary. Only requested details are compared. Non-trivial = >= 2 non-excluded hits, or an exclusion on a list with >= 2 hits.",
 		Assumptions: append([]string{"Advance targets are strictly beyond the last returned document (as the property states); ReplaceActual is applied before iteration starts and only to iterators that report an actual bitmap"}, batchAssumptions...),
 		Bounds:      map[string]string{"quick": "N<=5, ReplaceActual N<=4, reuse pairs+triples, large instances", "thorough": "N<=7, ReplaceActual N<=5, reuse pairs+triples with all flag pairs, large instances"},
 		New:         func() interface{} { return &PostCase{} },
